@@ -335,15 +335,18 @@ def _post_shapes(cx, spec):
                     f["name"] = kw
             def ren(x):
                 return kw + x[len(low):] if x == low or x.startswith(low + ".") else x
-            if m.get("http"):
-                for b in [m["http"]] + list(m["http"].get("additional", ())):
-                    b["path"] = b["path"].replace("{" + low + ".", "{" + kw + ".")
-                    if b.get("body") == low:
-                        b["body"] = kw
-            if m.get("signatures"):
-                m["signatures"] = [",".join(ren(x) for x in sg.split(",")) for sg in m["signatures"]]
-            for rp in m.get("routing") or []:
-                rp["field"] = ren(rp["field"])
+            for _, _, m2 in methods:
+                if m2["input"] != m["input"]:
+                    continue            # (every RPC that takes this request type: the same method may live in two services)
+                if m2.get("http"):
+                    for b in [m2["http"]] + list(m2["http"].get("additional", ())):
+                        b["path"] = b["path"].replace("{" + low + ".", "{" + kw + ".")
+                        if b.get("body") == low:
+                            b["body"] = kw
+                if m2.get("signatures"):
+                    m2["signatures"] = [",".join(ren(x) for x in sg.split(",")) for sg in m2["signatures"]]
+                for rp in m2.get("routing") or []:
+                    rp["field"] = ren(rp["field"])
             break
     if prng.random() < p.get("p_struct_fields", 0):
         # `repeated google.protobuf.Struct rows` named by a method_signature (sibling of Vertex AI's repeated Value
